@@ -146,6 +146,25 @@ def run(ctx):
     texts = ["".join(rng.choice(noise_alpha) for _ in range(rng.choice([1, 2, 3, 5, 8, 13, 40]))) for _ in range(2000 if quick else 50000)]
     ctx.rule("%d random character strings over %r" % (len(texts), noise_alpha))
     check_batch(ctx, texts, "noise")
+    # declaration specifiers in every combination, with and without declarators, wherever a declaration
+    # or a type name may stand (the specifier loops have the densest population of special cases)
+    SPECS = ["const", "int", "T", "_Atomic(int)", "_Atomic", "_Alignas(8)", "_Alignas(int)", "struct S", "struct { int a; }",
+             "enum E", "static", "typedef", "inline", "unsigned", "_Thread_local", "_Noreturn", "void", "_Atomic(T)"]
+    TAILS = [";", "x;", ":3;", "x:3;", "*;", "(x);", ")", "[2];", "= 1;", ", y;", "{}", "*x, y;", "(*)(void);", "x(int);", ""]
+    CTX = [("typedef int T; ", ""), ("typedef int T; struct S0 { ", " };"), ("typedef int T; void f(void) { ", " }"),
+           ("typedef int T; void g(", ");"), ("typedef int T; int v = sizeof(", ");"), ("typedef int T; int w = (", ")1;"),
+           ("typedef int T; void h(void) { for (", ";;) ; }")]
+    depth = 2 if quick else 3
+    texts = []
+    for n in range(1, depth + 1):
+        for sp in itertools.product(SPECS, repeat=n):
+            if n == 3 and rng.random() > 0.25:
+                continue
+            for tl in TAILS:
+                for a, b in CTX:
+                    texts.append(a + " ".join(sp) + " " + tl + b)
+    ctx.rule("%d declarations / type names made of <=%d declaration specifiers (18 forms incl. _Atomic(T), _Alignas, anonymous struct) x 15 declarator tails x 7 contexts (file scope after a typedef, struct body, block, parameter list, sizeof, cast, for-init)%s" % (len(texts), depth, "" if quick else "; a quarter of the 3-specifier combinations"))
+    check_batch(ctx, texts, "specifier-lists")
     # size extremes: directive arguments, literals and identifiers far beyond everyday lengths
     texts = []
     for n in (1, 9, 19, 20, 400, 4300, 4301):
